@@ -429,7 +429,10 @@ class Ctx:
         self.coverage = {}
         self.assumptions = []
         self.interp = None
-        self.work = os.path.join(CACHE, "work", pid)
+        # scratch/cache directory of this property; runs against another REPO (seeded changes,
+        # mutation tests) get their own so they never prune or overwrite each other's artefacts
+        suffix = "" if REPO == "/repo" else "@" + hashlib.sha1(os.path.abspath(REPO).encode()).hexdigest()[:10]
+        self.work = os.path.join(CACHE, "work", pid + suffix)
         os.makedirs(self.work, exist_ok=True)
         self.known = [k for k in load_known(pid).get("findings", []) if k.get("property") == pid]
 
